@@ -16,6 +16,7 @@ type chainDriver struct {
 	forkID  uint64
 	opts    chaingen.Opts
 	bumpDen int
+	post    func(*chaingen.Block) // feeder class: rewrites the block before anything is built on it
 }
 
 func newChainDriver(c *sim.Ctx) *chainDriver {
@@ -46,7 +47,11 @@ func (d *chainDriver) next(parent *chaingen.Block) *chaingen.Block {
 	o := d.opts
 	o.Version = chaingen.Versions[d.verIdx]
 	o.Salt = d.forkID
-	return d.g.Next(d.c.T, parent, o)
+	b := d.g.Next(d.c.T, parent, o)
+	if d.post != nil {
+		d.post(b)
+	}
+	return b
 }
 
 func (d *chainDriver) newFork() { d.forkID++ }
